@@ -349,6 +349,41 @@ func cmdForms(args []string) {
 		g, r, w := renderAll(s)
 		tw.Emit(Rec{"ev": "entry", "id": id, "name": fmt.Sprintf("statement %d (%s)", i+1, path), "gostring": g, "render": r, "withfile": w})
 	}
+	// the callback of a Group-method ...Func form runs INSIDE the constructing call, i.e. before the new statement is
+	// appended to the group: a callback that also appends to the enclosing group ("hoists" a declaration) gives the same
+	// order as building the two statements one after the other
+	for _, name := range names {
+		fn, ok := pkg[name+"Func"]
+		if !ok || fn.Type().NumIn() != 1 || fn.Type().In(0) != reflect.TypeOf(func(*jen.Group) {}) {
+			continue
+		}
+		gm := groupType.Method(0)
+		found := false
+		for i := 0; i < groupType.NumMethod(); i++ {
+			if groupType.Method(i).Name == name+"Func" {
+				gm, found = groupType.Method(i), true
+			}
+		}
+		if !found {
+			continue
+		}
+		id++
+		tw.Traces++
+		var a, b string
+		r := safely(func() ([]byte, error) {
+			hoisting := jen.BlockFunc(func(g *jen.Group) {
+				gm.Func.Call([]reflect.Value{reflect.ValueOf(g), reflect.ValueOf(func(in *jen.Group) {
+					g.Id("hoisted")
+					in.Id("a")
+				})})
+			})
+			inner := fn.Call([]reflect.Value{reflect.ValueOf(func(in *jen.Group) { in.Id("a") })})[0].Interface().(*jen.Statement)
+			plain := jen.Block(jen.Id("hoisted"), inner)
+			a, b = rawOf(plain), rawOf(hoisting)
+			return nil, nil
+		})
+		tw.Emit(Rec{"ev": "funcv", "id": id, "name": name + " (Group method, callback appends to the enclosing group)", "plain": a, "funcv": b, "status": r.status})
+	}
 	// DictFunc returns a Dict, not a statement: checked on its own
 	{
 		id++
